@@ -41,9 +41,6 @@ def allowList : List Allow := [
     why := "fallback search `sprintf (buf, \"%s/%s\", inc_list[i], name)`: inc_list entries passed legal_path in " ++
            "set_inc_list (\"\" is stored as \".\") and `name` was just rejected if it contains \"..\": theorems " ++
            "include_path_confined, inc_dir_ok" },
-  { file := "lib/efuns/ed.c", fn := "save_ed_buffer", callee := "dowrite", root := "stmp->u.string",
-    why := "the file name is the master's own answer (get_ed_buffer_save_file_name) when an editing user goes " ++
-           "net-dead: the approving authority chose the path itself (observation O-2 in notes/C15.md)" },
   { file := "lib/lpc/program/binaries.c", fn := "save_binary", callee := "crdir_fopen", root := "prog->name",
     why := "SaveBinaryDir (configuration) + \"/\" + program name; the program name passed legal_path in load_object" },
   { file := "lib/lpc/program/binaries.c", fn := "save_binary", callee := "fopen", root := "prog->name",
@@ -155,6 +152,54 @@ def knownNonFs : List String :=
     breaks this obligation. -/
 theorem ext_callees_classified : extCallees.all (fun c => knownNonFs.contains c) = true := by decide
 
+/-- data flow into the search-path fallback of `inc_open` (`sprintf (buf, "%s/%s", inc_list[i], name)`, the one
+    `open` of the loader that is allow-listed above): EVERY store into the global `inc_list` anywhere in the scanned
+    files is either 0 or a copy of a local variable that a PRECEDING `legal_path ()` call of the same function guards,
+    with no assignment to that variable in between (regenerated from the AST; `set_inc_list`).  Together with
+    `include_path_confined_any_config` (model) this replaces trust in the allow-list entry by an obligation. -/
+theorem inc_list_stores_guarded :
+    globalStores.all (fun g => g.2.2.1 == "inc_list" && (g.2.2.2.2 == "null" || g.2.2.2.2 == "guarded")) = true ∧
+    globalStores.any (fun g => g.2.2.2.2 == "guarded") = true := by decide
+
+/-- every character array with static storage duration in the files of the file efuns, the editor, the lexer and the
+    saved-binary code, with the reason why it cannot carry a PATH across a master apply (where a re-entrant master —
+    valid_read / valid_write calling file efuns themselves — could overwrite it; seeded change C15-5 made
+    `read_file`'s path copy static and `check_valid_path` re-read it after the apply).  Keyed by (file, function,
+    name): sizes may change freely; a NEW static array is not on the list and breaks `static_bufs_classified`. -/
+def staticBufWhy : List (String × String × String × String) := [
+  ("lib/efuns/ed.c", "", "inlin", "the editor's current input line; ed commands come from user input, never from inside a master apply"),
+  ("lib/efuns/ed.c", "", "last_term", "indentation state of the editor (no path)"),
+  ("lib/efuns/ed.c", "docmd", "rhs", "substitution text of the `s` command (no path)"),
+  ("lib/efuns/ed.c", "doread", "str", "line buffer for the file being read (content, not a path)"),
+  ("lib/efuns/ed.c", "getfn", "file",
+     "the editor's file name: filled, checked (check_valid_path) and returned by getfn only; its callers use it " ++
+     "before any further apply; getfn is not re-entered from a master apply (ed commands are dispatched from user " ++
+     "input); the approved path is copied back over it (ed_getfn_exact)"),
+  ("lib/efuns/ed.c", "indent", "f", "format string (no path)"),
+  ("lib/efuns/ed.c", "indent", "g", "format string (no path)"),
+  ("lib/efuns/ed.c", "indent_code", "s", "indentation stack (no path)"),
+  ("lib/efuns/file_utils.c", "check_valid_path", "current_dir", "the constant \".\" returned for the mudlib root"),
+  ("lib/lpc/lex.c", "", "lex_ctype", "character class table"),
+  ("lib/lpc/lex.c", "", "yytext", "current token text"),
+  ("lib/lpc/lex.c", "handle_include", "buf",
+     "path buffer of #include: filled by inc_open and opened there; the compiler makes no valid_read / valid_write " ++
+     "consultation, and a nested compile cannot start between the fill and the open"),
+  ("lib/lpc/lex.c", "query_opcode_name", "buf", "opcode name (no path)"),
+  ("lib/lpc/lex.c", "show_error_context", "buf", "source excerpt (no path)"),
+  ("lib/lpc/lex.c", "yylex", "partial", "text block terminator (no path)"),
+  ("lib/lpc/lex.c", "yylex", "terminator", "text block terminator (no path)"),
+  ("lib/lpc/object.c", "save_object", "tmp_name",
+     "temporary file name: written AFTER check_valid_path returned, no apply until its last use (rename / unlink)"),
+  ("lib/lpc/preprocess.c", "", "_optab", "operator table"),
+  ("lib/lpc/preprocess.c", "", "optab2", "operator table"),
+  ("lib/lpc/program/binaries.c", "", "simul_efun_path", "configured SimulEfunFile (administrator's configuration)")]
+
+/-- **no path in static storage across the master apply** (translator obligation; fails closed on a new static
+    character array in these files) -/
+theorem static_bufs_classified :
+    staticBufs.all (fun b => staticBufWhy.any (fun k => k.1 == b.1 && k.2.1 == b.2.1 && k.2.2.1 == b.2.2.1)) = true := by
+  decide
+
 /-- the searched callee names include the less usual ways to reach a file -/
 theorem fs_callees_cover :
     (["open", "open64", "openat", "openat2", "creat", "fopen", "fopen64", "freopen", "stat", "lstat", "statx", "fstatat",
@@ -199,7 +244,7 @@ theorem legal_path_literals :
 
 /-- the same fingerprint for the other hand-mirrored string functions (character codes: 47 '/', 46 '.', 63 '?',
     42 '*', 92 '\\', 0 NUL):
-    * `check_valid_path`: `current_dir = "."`, (the tag of `debug_warn`), `ret_path[0] == '/'`, `ret_path[0] == '\0'`
+    * `check_valid_path`: `current_dir = "."`, `ret_path[0] == '/'`, `ret_path[0] == '\0'`
       — `Model.stripOneSlash`, `cvpFinish`;
     * `inc_lexically_normal`: the slash tests and the prefixes `"../"` and `"./"` in source order — `Model.incLoop`;
     * `inc_open`: the three '.' of the ".." scan — `Model.hasDotDot`;
@@ -207,36 +252,44 @@ theorem legal_path_literals :
     A changed comparison character / prefix (or a reordering) breaks this obligation; the exhaustive differential run
     over the same functions then looks for an input. -/
 theorem path_function_literals :
-    literals.lookup "check_valid_path" = some ["s\".\"", "s\"WARN\"", "c47", "c0"] ∧
+    literals.lookup "check_valid_path" = some ["s\".\"", "c47", "c0"] ∧
     literals.lookup "inc_lexically_normal" =
       some ["c47", "c47", "s\"../\"", "c47", "c47", "s\"./\"", "c47", "s\"/\"", "c47", "c47", "c47"] ∧
     literals.lookup "inc_open" = some ["c46", "c46", "c46"] ∧
     literals.lookup "match_string" = some ["c0", "c0", "c63", "c0", "c42", "c0", "c0", "c0", "c92", "c0"] := by decide
 
-/-- which libc function each function of the efun layer / loader calls, in source order (regenerated site table):
+/-- which libc function each function of the efun layer / loader calls, as a set (regenerated site table):
     the names `Sys.efunEvents`, `getDirFs`, `renameEfun` / `moveEvents`, `cpEfun`, `saveEfun`, `edIo`, `loadEvents`,
     `includeOpens` print for their events (`open` vs `fopen`, `unlink`, `symlink` …).  binaries.c is left out (C17's
     ground; its rows are covered by `mediated_sites`). -/
 def siteCallees (f : String) : List String := (sites.filter (fun s => s.fn == f && s.arg == 0)).map (·.callee)
 
+def insertS (x : String) : List String → List String
+  | [] => [x]
+  | y :: r => if x < y then x :: y :: r else if x == y then y :: r else y :: insertS x r
+
+/-- the SET of libc file functions a function calls (sorted, without repetitions: an additional `unlink` on an error
+    path or a reordered cleanup does not change it, a new kind of call does) -/
+def calleeSet (f : String) : List String := (siteCallees f).foldr insertS []
+
 theorem efun_libc_table :
-    [("read_file", siteCallees "read_file"), ("write_file", siteCallees "write_file"),
-     ("remove_file", siteCallees "remove_file"), ("f_mkdir", siteCallees "f_mkdir"), ("f_rmdir", siteCallees "f_rmdir"),
-     ("file_size", siteCallees "file_size"), ("file_length", siteCallees "file_length"), ("tail", siteCallees "tail"),
-     ("read_bytes", siteCallees "read_bytes"), ("write_bytes", siteCallees "write_bytes"), ("f_stat", siteCallees "f_stat"),
-     ("get_dir", siteCallees "get_dir"), ("do_move", siteCallees "do_move"), ("copy", siteCallees "copy"),
-     ("copy_file", siteCallees "copy_file"), ("save_object", siteCallees "save_object"),
-     ("restore_object", siteCallees "restore_object"), ("dumpstat", siteCallees "dumpstat"),
-     ("dump_prog", siteCallees "dump_prog"), ("doread", siteCallees "doread"), ("dowrite", siteCallees "dowrite"),
-     ("load_object", siteCallees "load_object"), ("inc_open", siteCallees "inc_open")] =
+    [("read_file", calleeSet "read_file"), ("write_file", calleeSet "write_file"),
+     ("remove_file", calleeSet "remove_file"), ("f_mkdir", calleeSet "f_mkdir"), ("f_rmdir", calleeSet "f_rmdir"),
+     ("file_size", calleeSet "file_size"), ("file_length", calleeSet "file_length"), ("tail", calleeSet "tail"),
+     ("read_bytes", calleeSet "read_bytes"), ("write_bytes", calleeSet "write_bytes"), ("f_stat", calleeSet "f_stat"),
+     ("get_dir", calleeSet "get_dir"), ("do_move", calleeSet "do_move"), ("copy", calleeSet "copy"),
+     ("copy_file", calleeSet "copy_file"), ("save_object", calleeSet "save_object"),
+     ("restore_object", calleeSet "restore_object"), ("dumpstat", calleeSet "dumpstat"),
+     ("dump_prog", calleeSet "dump_prog"), ("doread", calleeSet "doread"), ("dowrite", calleeSet "dowrite"),
+     ("load_object", calleeSet "load_object"), ("inc_open", calleeSet "inc_open")] =
     [("read_file", ["open"]), ("write_file", ["fopen"]), ("remove_file", ["unlink"]), ("f_mkdir", ["mkdir"]),
      ("f_rmdir", ["rmdir"]), ("file_size", ["stat"]), ("file_length", ["open"]), ("tail", ["fopen"]),
      ("read_bytes", ["fopen"]), ("write_bytes", ["open"]), ("f_stat", ["stat"]),
-     ("get_dir", ["stat", "opendir", "stat"]), ("do_move", ["rename", "unlink", "symlink"]),
-     ("copy", ["open", "open", "unlink", "unlink"]), ("copy_file", ["open", "stat", "open"]),
-     ("save_object", ["fopen", "unlink", "unlink", "rename", "unlink"]), ("restore_object", ["fopen"]),
+     ("get_dir", ["opendir", "stat"]), ("do_move", ["rename", "symlink", "unlink"]),
+     ("copy", ["open", "unlink"]), ("copy_file", ["open", "stat"]),
+     ("save_object", ["fopen", "rename", "unlink"]), ("restore_object", ["fopen"]),
      ("dumpstat", ["fopen"]), ("dump_prog", ["fopen"]), ("doread", ["fopen"]), ("dowrite", ["fopen"]),
-     ("load_object", ["stat", "open"]), ("inc_open", ["open", "open"])] := by decide
+     ("load_object", ["open", "stat"]), ("inc_open", ["open"])] := by decide
 
 /-- `save_object` builds its temporary file with `"%.250s.tmp"` from the approved path (the `250` of
     `Sys.saveEfun` and of the oracle's `covers`) -/
